@@ -55,7 +55,7 @@ def unreported_hang(hist):
     return None
 
 
-_RETRIED = ("E1", "E2", "OSError", "F1", "TimeoutError", "FileNotFoundError")   # Exceptions: what retry retries
+_RETRIED = ("E1", "E2", "OSError", "F1", "Z1", "TimeoutError", "FileNotFoundError")   # Exceptions: what retry retries
 
 
 def _transient(f, limit):
